@@ -1,5 +1,6 @@
 """C16 — Every flux sample is a feasible flux distribution."""
 from contracts import c16_sampling as C
+from contracts import c16_samplers as CX
 from props._generic import run_property, replay_with_driver
 
 LEVEL = "other"
@@ -7,7 +8,11 @@ KEYS = ["step"]
 
 
 def run(rep):
-    run_property(rep, KEYS, hooks=C.HOOKS, explanation=(
+    run_property(rep, KEYS, hooks=C.HOOKS,
+                 more=[(["HRSampler._random_point", "HRSampler._bounds_dist", "HRSampler._reproject", "ACHRSampler.__single_iteration"], CX.HOOKS),
+                       (["ACHRSampler.sample"], CX.HOOKS_S), (["mp_init", "_sample_chain"], CX.HOOKS_C),
+                       (["OptGPSampler.sample"], CX.HOOKS_O), (["sampling.sample"], CX.HOOKS_D),
+                       (["HRSampler.validate"], CX.HOOKS_V), (["HRSampler.batch"], CX.HOOKS_B)], explanation=(
         "Deductive part (control/data flow only, through the opaque array algebra - numpy operations are uninterpreted functions): "
         "sampling.core.step is proved, on every one of its return paths (direct, or through the recursive retry under its own "
         "contract), to return only a point p for which the guard `not any(sampler._bounds_dist(p) < -sampler.bounds_tol)` was evaluated "
@@ -15,9 +20,42 @@ def run(rep):
         "numpy arrays, implies feasibility at the documented tolerance, the choice of alpha, the null-space projection and the "
         "bookkeeping of both samplers are NOT proved (floating point, SVD, random walk): bounded driver (every returned sample of ACHR "
         "and OptGP on generated models x n x thinning x seeds x processes against an independent S v = 0 / bounds / user-constraint "
-        "check, row counts, column order, seed reproducibility, validate() agreement, model unchanged)."),
+        "check, row counts, column order, seed reproducibility, validate() agreement, model unchanged). "
+        "The guards, bookkeeping and index arithmetic AROUND the walk are proved too (contracts/c16_samplers.py; the sampler is a "
+        "materialised object with exact integer fields, its arrays opaque; preconditions n >= 0, thinning >= 1, nproj >= 1 as documented, "
+        "n_samples >= 0, processes >= 1): ACHRSampler.__single_iteration does exactly one step() from the previous point in the direction "
+        "warmup[random] - center, re-projects point AND centre exactly when problem.homogeneous and n_samples * thinning % nproj == 0, "
+        "updates the centre as the running mean n c/(n+1) + p/(n+1) with the OLD count and increments n_samples once; "
+        "ACHRSampler.sample(n, fluxes) and optgp._sample_chain((n, idx)) (loop invariants with `rows filled = iterations // thinning`): "
+        "exactly the rows 0..n-1 of the array created as zeros((n, .)) are written, row r when the iteration counter is (r+1)*thinning, with "
+        "the current point, and every stored point either passed the guard of step() (its proved contract) or is a value _random_point() "
+        "returned at a re-projection (a mean of warmup rows; NOT guarded - stated, not hidden); n_samples grows by thinning*n; the frame "
+        "is DataFrame(samples[:, fwd_idx] - samples[:, rev_idx], columns = the model's reaction ids in order) resp. DataFrame(samples, "
+        "columns = variable names in solver order); _sample_chain reseeds np.random exactly once with (seed + idx) % (2**31 - 1) BEFORE any "
+        "draw, writes no sampler field but retries and returns (sampler.retries, samples); OptGPSampler.sample: serial branch = mp_init(self) "
+        "+ _sample_chain((n, 0)); parallel branch (processes > 1) against the ASSUMED ordered-map contract Pool.map: n_process = ceil(n / "
+        "processes) (c*P >= n > (c-1)*P), one pool (processes, initializer=mp_init, initargs=(self,)), one map(_sample_chain, [(n_process, "
+        "j) for j < processes]), the chains stacked in index order, rows returned = n_process*processes with n <= rows < n + processes, "
+        "retries += the sum of the tasks' counts, n_samples += the number ACTUALLY generated and the centre = (n_samples*center + "
+        "chains.sum(0)) / (n_samples + that number); the pool is left also when a task raises; _bounds_dist (lower distances p - lb, upper "
+        "ub - p, constraints included iff there are any), _random_point, _reproject (returns p when the equalities hold within tolerance; "
+        "otherwise p or a _random_point - the projection itself is returned only if it compares equal to p, see the finding in the "
+        "module docstring); sampling.sample dispatches 'optgp' -> OptGPSampler(model, processes=, thinning=, seed=), 'achr' -> "
+        "ACHRSampler(model, thinning=, seed=), anything else ValueError before any constructor call, and returns DataFrame(columns = "
+        "reaction ids of the model, data = sampler.sample(n)); HRSampler.batch (ACHR receiver, generator run eagerly) yields exactly "
+        "batch_num results of sample(batch_size, fluxes=fluxes); HRSampler.validate: ValueError unless the column count is that of the "
+        "reactions or of the variables, and - under ASSUMED row-wise semantics of the final mask operations - per row the code is "
+        "('v' if f < feasibility_tol and lb > -bounds_tol and ub > -bounds_tol) + ('l' if lb <= -bounds_tol) + ('u' if ub <= -bounds_tol) "
+        "+ ('e' if f > feasibility_tol), i.e. 'v' iff feasible, l / u / e exactly for a violated lower bound / upper bound / equality, "
+        "1 to 3 letters provided the residual is not EXACTLY the tolerance (there, and for NaN, the code is empty: finding, reproduced "
+        "natively, see contracts/c16_samplers.py)."),
         trusted=["numpy operations are pure deterministic functions of their arguments (opaque algebra)", "floating point",
-                 "SVD null space"])
+                 "SVD null space", "multiprocessing.Pool.map is ordered and runs each task once in a worker initialised on a private copy "
+                 "(assumed contract Pool.map)", "float division n / processes and np.ceil are exact (operands below 2**53)",
+                 "two arrays that differ in no element are the same point (NaN-free; used for _reproject)",
+                 "sampler constructors (assumed contract HRSampler.__init__@samplers)",
+                 "row-wise semantics of <, <=, >, unary -, &, mask assignment and np.char.add (assumed contract numpy.rowwise; validate)",
+                 "np.random draws are a deterministic function of the last seed and the draw sequence (reproducibility)"])
 
 
 def replay(payload):
